@@ -173,9 +173,38 @@ def all_constraints(f, gts, eqs, X):
 
 
 def stream_select(ctx, rng, problems, quick):
-    import sageopt as so
     lines, metas = [], []
     for c in problems:
+        # one problem = one forked child: building, solving and recovery all run ECOS in-process
+        log = common.CtxLog(ctx.seed)
+        grid = option_grid(rng, c['kind'], quick)
+        kind, res = common.forked(lambda: (select_one(log, c, grid), log.log), timeout=600)
+        if kind == 'exception':
+            raise RuntimeError('solution recovery harness raised in the child: %s' % res)
+        if kind != 'ok':
+            ctx.incon('select: solver %s' % kind)
+            continue
+        (l2, m2), entries = res
+        log.log = entries
+        log.replay_into(ctx)
+        lines += l2
+        metas += m2
+    mouts = run_driver(lines)
+    for (c, opts, verdicts, order, has_nan), mo in zip(metas, mouts):
+        if isinstance(mo, dict) and 'error' in mo:
+            raise common.DriverError(mo['error'])
+        if verdicts != mo['verdicts']:
+            ctx.disagreement('select', {'problem': c, 'opts': opts}, {'verdicts': verdicts}, {'verdicts': mo['verdicts']})
+        elif not has_nan and order != mo['order']:
+            ctx.disagreement('select', {'problem': c, 'opts': opts}, {'order': order}, {'order': mo['order']})
+        else:
+            ctx.traces_validated += 1
+
+
+def select_one(ctx, c, grid):
+    import sageopt as so
+    lines, metas = [], []
+    for c in [c]:
         try:
             f, gts, eqs, X, prob, st_, val = build_and_solve(c)
         except Exception as e:  # noqa: BLE001
@@ -185,7 +214,7 @@ def stream_select(ctx, rng, problems, quick):
             ctx.incon('select: relaxation status %s' % st_)
             continue
         lifted = X is not None and X.A.shape[1] > c['f']['n']
-        for opts in option_grid(rng, c['kind'], quick):
+        for opts in grid:
             ctx.case({'stream': 'select', 'problem': c, 'opts': opts}, nontrivial=True)
             ctx.count('stream:select:' + c['kind'])
             ctx.count('X:' + ('none' if X is None else ('lifted' if lifted else 'plain')))
@@ -258,16 +287,7 @@ def stream_select(ctx, rng, problems, quick):
             lines.append({'op': 'solrec.select', 'ineq_tol': frac_str(F(opts['ineq_tol'])), 'eq_tol': frac_str(F(opts['eq_tol'])),
                           'cands': [{'gt': [fv(v) for v in r['gt']], 'eq': [fv(v) for v in r['eq']], 'obj': fv(o)} for r, o in zip(records, objs)]})
             metas.append((c, opts, [r['verdict'] for r in records], order, any(math.isnan(o) for o in objs)))
-    mouts = run_driver(lines)
-    for (c, opts, verdicts, order, has_nan), mo in zip(metas, mouts):
-        if isinstance(mo, dict) and 'error' in mo:
-            raise common.DriverError(mo['error'])
-        if verdicts != mo['verdicts']:
-            ctx.disagreement('select', {'problem': c, 'opts': opts}, {'verdicts': verdicts}, {'verdicts': mo['verdicts']})
-        elif not has_nan and order != mo['order']:
-            ctx.disagreement('select', {'problem': c, 'opts': opts}, {'order': order}, {'order': mo['order']})
-        else:
-            ctx.traces_validated += 1
+    return lines, metas
 
 
 def stream_filter(ctx, rng, N):
